@@ -13,5 +13,6 @@ let table : (string * (Model.z list list -> Model.z list list)) list = [
   "routerflat", Model.router_flat_run;
   "routerspec", Model.router_spec_run;
   "locale", Model.locale_run;
+  "path", Model.path_run;
   "localespec", Model.locale_spec_run;
 ]
